@@ -22,6 +22,7 @@ pub fn family(name: &str) -> Vec<Scenario> {
         "G3" => scen::family_g(3, &scen::EDGE_OPTIONS),
         "G3n" => scen::family_g_nosrc(3, &scen::EDGE_OPTIONS),
         "PX" => scen::family_px(),
+        "PXd" => scen::family_pxd(),
         "G4" => scen::family_g(4, &E3),
         "D3" => scen::family_d(3, &E4, false),
         "D3p" => scen::family_d(3, &E3, true),
@@ -46,8 +47,8 @@ pub fn jobs(prop: &str, tier: Tier) -> Vec<(String, u64)> {
     match (prop, tier) {
         ("C01", Tier::Quick) => q(&["G3", "G3n", "D3", "F3q", "S", "R"]),
         ("C01", Tier::Thorough) => q(&["G3", "G3n", "PX", "G4", "D3", "D3p", "D4", "F3", "F4", "P3", "S", "R"]),
-        ("C04", Tier::Quick) => q(&["P3", "PX", "D3p", "S", "R"]),
-        ("C04", Tier::Thorough) => q(&["P3", "PX", "P4", "D3p", "D4", "F4", "S", "R"]),
+        ("C04", Tier::Quick) => q(&["P3", "PX", "PXd", "D3p", "S", "R"]),
+        ("C04", Tier::Thorough) => q(&["P3", "PX", "PXd", "P4", "D3p", "D4", "F4", "S", "R"]),
         ("C05", Tier::Quick) => q(&["F3q", "S", "P3"]),
         ("C05", Tier::Thorough) => q(&["F3", "F4", "S", "P3", "PX", "P4", "R"]),
         ("C06", Tier::Quick) => q(&["V2", "V3", "G3", "G3n", "PX", "S", "R", "P3", "F3q"]),
@@ -710,6 +711,23 @@ pub fn monitor_c18(s: &Scenario, ex: &Execution) -> Findings {
         }
     };
     let regen_failed = has_gen && phs.first().map(|p| p.runs.iter().any(|r| matches!(r.finish, Some((_, t)) if t != Term::Success))).unwrap_or(false);
+    // A generator input was edited, so the manifest is out of date and has to be
+    // regenerated first: names are then judged against the text the generator
+    // writes, also when n2 gave up before running anything.
+    let must_regenerate = has_gen && s.prebuilt && !s.adopt && s.edits.iter().any(|e| matches!(e, crate::scen::Edit::Touch(f) if f == "gen.in"));
+    let nothing_ran = phs.iter().all(|ph| ph.runs.is_empty());
+    if must_regenerate && nothing_ran {
+        if let (BuildResult::Error(msg), Some(g)) = (&ex.result, s.generators.values().next()) {
+            let in_next = |t: &str| -> bool {
+                let c = vcore::refbuild::canon(t);
+                g.next.producer(&c).is_some() || g.next.sources().contains(&c) || c == s.manifest_name
+            };
+            if msg.contains("unknown path requested") && s.targets.iter().all(|t| in_next(t)) {
+                f.push(("target-of-regenerated-manifest-rejected".into(), format!("the manifest is out of date and the text its generator writes defines every target of {:?}, yet n2 rejected them without regenerating: {}", s.targets, msg)));
+                return f;
+            }
+        }
+    }
     if !regen_failed {
         let mentioned = |t: &str| -> bool {
             let c = vcore::refbuild::canon(t);
@@ -876,7 +894,11 @@ pub fn monitor_c17(s: &Scenario, ex: &Execution) -> Findings {
     if !has_gen {
         return f;
     }
-    let Some(p1) = phs.first() else { return f };
+    let Some(p1) = phs.first() else {
+        // n2 gave up before any phase began: the target clauses still apply.
+        f.extend(monitor_c18(s, ex).into_iter().map(|(k, d)| (format!("regen:{}", k), d)));
+        return f;
+    };
     let gen_step = p1.project.producer(&s.manifest_name).unwrap();
     let gen_failed = p1.runs.iter().any(|r| matches!(r.finish, Some((_, t)) if t != Term::Success));
     if gen_failed {
